@@ -461,6 +461,20 @@ def path_cases(fa: FA, expr, at: int, also=(), cap: int = 20000):
                         changed = True
     word = _re.compile(r"(?<![A-Za-z0-9_.])(%s)(?![A-Za-z0-9_])" % "|".join(sorted(_re.escape(x) for x in rel))) if rel else None
     keep_memo = {}
+    # tests that decide WHETHER one of those names is (re)bound, or whether the way to `at` is left early: the tests
+    # of the if / while statements around such a binding / jump keep all their literals
+    deciding = set()
+    for st in fa.stmts():
+        binds = isinstance(st, (ast.Return, ast.Raise, ast.Break, ast.Continue)) or \
+            (isinstance(st, (ast.Assign, ast.AugAssign, ast.AnnAssign, ast.For, ast.With, ast.Delete))
+             and any(isinstance(n, ast.Name) and isinstance(n.ctx, (ast.Store, ast.Del)) and n.id in rel for n in ast.walk(st)))
+        if not binds:
+            continue
+        x = fa.pm.get(st)
+        while x is not None and not isinstance(x, (ast.FunctionDef, ast.AsyncFunctionDef)):
+            if isinstance(x, (ast.If, ast.While)):
+                deciding.add(id(x.test))
+            x = fa.pm.get(x)
 
     def keep(lit):
         if lit[0] not in keep_memo:
@@ -534,12 +548,49 @@ def path_cases(fa: FA, expr, at: int, also=(), cap: int = 20000):
                 if (n, l) not in alts_memo:
                     alts_memo[(n, l)] = fa._alts(nd.ast, n, l == "T")
                 adds = alts_memo[(n, l)]
+            whole = nd.kind == "test" and id(nd.ast) in deciding
             for add in adds:
-                add = [a for a in add if keep(a)]
+                if not whole:
+                    add = [a for a in add if keep(a)]
                 if any((a[0], not a[1]) in lits for a in add):
                     continue
                 stack.append((d, tuple(sorted(set(lits) | set(add))), env if l == "exc" else after))
     return [(v, a_, _simplify(conds)) for (v, a_, conds) in res.values()]
+
+
+def flag_conditions(fa: FA, name: str, pol: bool):
+    """The conditions (DNF: set of frozensets of literals) under which the local `name`, where it is used as a branch
+    test, comes out `pol`: a verdict prepared in a flag (`needs = c is not None` ... `if other: needs = False` ...
+    `if needs:`) opened up into the tests that decided it.  None when the flag cannot be opened (not a local bound by
+    plain assignments, too many paths)."""
+    if not fa.df.is_local(name):
+        return None
+    tests = [n.id for n in fa.cfg.nodes if n.kind == "test" and any(isinstance(x, ast.Name) and x.id == name for x in ast.walk(n.ast))]
+    if not tests:
+        return None
+    live = fa.cfg.reachable_nodes()
+    out = set()
+    for t in tests:
+        if t not in live:
+            continue
+        cases = path_cases(fa, ast.Name(id=name, ctx=ast.Load()), t)
+        if cases is None:
+            return None
+        for (v, a_, conds) in cases:
+            if isinstance(v, ast.Name) and v.id == name:
+                return None  # (not bound by a plain assignment on some path: a parameter, a loop variable)
+            truth = bool(v.value) if isinstance(v, ast.Constant) else None
+            if truth is not None and truth != pol:
+                continue
+            own = [[]] if truth is not None else fa._alts(v, a_, pol)
+            for c in (conds or {frozenset()}):
+                for o in own:
+                    if any((l[0], not l[1]) in c for l in o):
+                        continue
+                    out.add(frozenset(c) | frozenset(o))
+            if len(out) > 64:
+                return None
+    return out
 
 
 def reaches_avoiding(fa: FA, start: int, avoid, targets) -> bool:
